@@ -241,7 +241,7 @@ func (w *c07World) genDelegate(r *kernel.Run, rng *kernel.Rng) *kernel.Tx {
 type c07Monitor struct {
 	kernel.NopMonitor
 	evals   int64
-	parent  map[string]string                                  // address -> root address
+	parent  map[string]string                                // address -> root address
 	roots   map[string]*authvesting.ContinuousVestingAccount // phantom, never split
 	members map[string][]string
 	pre     struct {
